@@ -4,7 +4,7 @@ import sys
 import time
 import traceback
 
-from . import common, facts, interp, wire, rules_wire, rules_header, rules_hash, golden, hashrec, rules_align, gen_units, guards, rules_eps, rules_err, rules_schema, rules_loader, rules_zc
+from . import common, facts, interp, wire, rules_wire, rules_header, rules_hash, golden, hashrec, rules_align, gen_units, guards, rules_eps, rules_err, rules_schema, rules_loader, rules_zc, rules_cursor
 from .common import Report, Facts, ExportError
 
 ASSUME_COMMON = [
@@ -804,7 +804,24 @@ def check_C17(ctx):
             "and is const-evaluated by rustc for wrongly declared types; compile-fail witnesses for the derive-time refusals.")
 
 
-CHECKS = {"C17": check_C17, "C08": check_C08, "C09": check_C09, "C13": check_C13, "C14": check_C14, "C18": check_C18, "C12": check_C12, "C03": check_C03, "C11": check_C11, "C16": check_C16, "C07": check_C07, "C04": check_C04, "C06": check_C06, "C10": check_C10, "C01": check_C01, "C02": check_C02, "C15": check_C15, "C05": check_C05}
+def check_C19(ctx):
+    rep = ctx.rep
+    rep.rule("CUR-WRITE", "write: Ok(n) => pos' = pos + n, len' = max(len, pos'), buf copied to storage[pos..pos+n], growth by resize(_, T::default()), never shrinks; Err => state unchanged")
+    rep.rule("CUR-READ", "read: Ok(0) only when pos >= len; otherwise n = min(buf.len(), len - pos) under pos < len, pos' = pos + n, len unchanged")
+    rep.rule("CUR-SEEK", "seek: Start sets the given value; End/Current = length/position + offset through checked_add_signed; failing paths leave the state unchanged; length never changes")
+    rep.rule("CUR-ACC / CUR-BASE", "position/len/set_position are plain accessors; as_bytes(_mut) is the first len bytes at the base address of the aligned storage")
+    rep.rule("SUB", "every usize subtraction in the cursor is guarded by a condition on the same path (or is MAX - x)")
+    u = ctx.universe()
+    n = rules_cursor.rule_cursor(u, rep)
+    rep.floor("cursor method paths analysed", n, 12)
+    k = rules_cursor.rule_psub(u, rep)
+    rep.floor("subtractions analysed", k, 2)
+    return ("State-update relations of the cursor's methods extracted from all their paths (abstract interpretation with the old state symbolic) and compared with the relations "
+            "std::io::Cursor<Vec<u8>> documents; storage base address; guarded subtractions. Equivalence with std::io::Cursor over operation histories is NOT decided: these are "
+            "necessary per-operation conditions only.")
+
+
+CHECKS = {"C19": check_C19, "C17": check_C17, "C08": check_C08, "C09": check_C09, "C13": check_C13, "C14": check_C14, "C18": check_C18, "C12": check_C12, "C03": check_C03, "C11": check_C11, "C16": check_C16, "C07": check_C07, "C04": check_C04, "C06": check_C06, "C10": check_C10, "C01": check_C01, "C02": check_C02, "C15": check_C15, "C05": check_C05}
 
 
 def main(argv):
